@@ -8,7 +8,7 @@ from __future__ import annotations
 
 from hypothesis import strategies as st
 
-from vlib import gen_maps, gen_unit, join_unit, pipeline, xmap_text
+from vlib import gen_maps, gen_unit, join_unit, pipeline, scale, xmap_text
 from vlib.core import Sub, Violation, req, sut
 from vlib.oracles import matching_problem
 
@@ -207,4 +207,7 @@ def subchecks(tier):
             required_classes=("second-pass-record", "joined-record", "multi-segment-candidate")),
         Sub("cli", "hyp", check_cli, strategy=cli_strategy, examples=32 if q else 400, shrink_budget=10,
             describe="same through the real CLI / process pool, files equal to in-process", sample_filter=gen_maps.short_case),
+        Sub("huge-reference", "hyp", check_pipeline, strategy=lambda: scale.huge_reference_case(straddle=False), examples=1 if q else 16, shrink_budget=0, skip_first=True,
+            shards=1 if q else 16, sample_filter=scale.short, time_budget_s=3000,
+            describe="a reference of 33 000-36 000 labels: records whose label numbers lie above 32 767"),
     ]
